@@ -414,6 +414,9 @@ func (*c04) Decode(raw json.RawMessage) (any, error) {
 				c.Parse.S = string(b)
 			}
 		}
+		for i := range c.Parse.ProbeWant {
+			c.Parse.ProbeWant[i].Val = vtNorm(c.Parse.ProbeWant[i].Val)
+		}
 		for k, rv := range c.Parse.Reader {
 			rv.Val = vtNorm(rv.Val)
 			c.Parse.Reader[k] = rv
